@@ -244,6 +244,8 @@ def _check_offrule_reader(fn, fa, p, rd):
     cur = pl[1]                                  # the entry being completed: entries[i] or the loop element
     stored = unmut(e.d["value"])
     a = affine(stored)
+    # fields read through a view of an entry (`previous.as_ref()`, a copy) are fields of that entry
+    a = (a[0], {(("f", _strip_views(k[1]), k[2]) if isinstance(k, tuple) and k and k[0] == "f" else k): v for k, v in a[1].items()})
     # which arm is this path on?  contiguous arm: the raw value is known to be 0 and a previous entry is known to exist
     facts = [f for f, d in path_facts(p, e.seq, after=rd.seq)]
     raw0 = ("eq", val, 0) in facts
@@ -275,6 +277,11 @@ def _previous_entry(fa, p, cur, lid, facts):
         i_t = cur[2]
         if ("ne", i_t, 0) in facts:
             return ("idx", cur[1], ("bin", "-", i_t, C(1)))
+        # `i.checked_sub(1).map(|p| entries[p])` known to be Some (Option modelled at payload level): entries[i − 1] exists
+        want = ("idx", unmut(cur[1]), ("bin", "-", i_t, C(1)))
+        for f in facts:
+            if f[0] == "variant" and f[2] == "core::option::Option::Some" and f[3] is True and _strip_views(f[1]) == want:
+                return want
         return None
     for f in facts:
         if f[0] == "variant" and f[2] == "core::option::Option::Some" and f[3] is True:
@@ -292,6 +299,15 @@ def _previous_entry(fa, p, cur, lid, facts):
                 if len(somes) >= 1 and len(nones) >= 1 and len(somes) + len(nones) == len(srcs) and all(_pair_of(s[2][0], cur) for s in somes):
                     return ("prevpair", base)
     return None
+
+
+def _strip_views(t):
+    t = unmut(t)
+    while is_call_to(t, lambda s: s.endswith(("::as_ref", "::as_mut", "::as_deref", "::copied", "::cloned", "::clone"))) and t[2]:
+        t = unmut(t[2][0])
+    if isinstance(t, tuple) and t and t[0] == "idx":
+        return ("idx", unmut(t[1]), unmut(t[2]))
+    return t
 
 
 def _pair_of(t, cur):
@@ -474,6 +490,10 @@ def r_cols_writer(ctx):
                             s = s[2][0]
                         return aff_eq(affine(s), want_nb)
                     ok_nb = bool(srcs) and any(_is_start(s) for s in srcs) and all(_is_start(s) or _is_end(s) for s in srcs) and len(srcs) == 2
+                    if not ok_nb and srcs and any(_is_start(s) for s in srcs):
+                        # the carried value is the previous entry itself: None at the start, afterwards Some(current entry)
+                        rest = [s for s in srcs if not _is_start(s)]
+                        ok_nb = bool(rest) and all(is_call_to(s, lambda x: x == "core::option::Option::Some") and s[2] and _same_entry(s[2][0], ent) for s in rest)
                     obs.append(Ob("R-OFFRULE", fn, "encode: next_byte = previous offset + previous length (first: 0)", ok_nb, "next_byte sources = %s" % [tstr(s)[:60] for s in srcs], dec.loc()))
                     a = affine(val)
                     if contig:
@@ -537,6 +557,21 @@ def _offrule_facts(d, idx, ent):
     eq = [f for f in fs if f[0] == "rel" and f[1] == "==" and ("f", ent, "offset") in (f[2], f[3])]
     if len(eq) == 1:
         nb = eq[0][3] if eq[0][2] == ("f", ent, "offset") else eq[0][2]
+        # the previous entry itself is carried from iteration to iteration (`previous: Option<&Entry>`), the end of its data computed at the test
+        a_ = affine(unmut(nb))
+        if a_[0] == 0 and len(a_[1]) == 2 and set(a_[1].values()) == {1}:
+            ks = list(a_[1])
+            holders = set(unmut(k[1]) for k in ks if k[0] == "f")
+            if len(holders) == 1 and sorted(k[2] for k in ks if k[0] == "f") == ["length", "offset"]:
+                P = list(holders)[0]
+                while is_call_to(P, lambda s_: s_.endswith(("::as_ref", "::copied", "::cloned", "::as_deref"))) and P[2]:
+                    P = unmut(P[2][0])
+                if _FA is not None and P[0] == "v" and P[1].startswith("loop"):
+                    srcs = [unmut(s_) for s_ in _FA.havoc_src.get(P, ())]
+                    somes = [s_ for s_ in srcs if is_call_to(s_, lambda x: x == "core::option::Option::Some")]
+                    nones = [s_ for s_ in srcs if is_call_to(s_, lambda x: x == "core::option::Option::None")]
+                    if somes and nones and len(somes) + len(nones) == len(srcs) and all(_same_entry(s_[2][0], ent) for s_ in somes):
+                        return P      # Some ⇔ not the first entry; validated as "previous entry" here
         if has_i:
             return nb
         # `preceding_end == Some(entry.offset)` with an Option that is None exactly for the first entry: equality already implies "not the first entry"
